@@ -65,6 +65,14 @@ def _std(dim):
         vc.ensure(f"O-C17-std.metric{D}", vc.eq(det.metric, q, 1e-7))
         bound = _isf(vc, alpha, dim)
         if not vc.symbolic:
+            if vc.bool("statistic_exactly_on_bound"):
+                # native replay of the boundary clause ("reaches the bound"): covariance diag(1/bound, 1, ...) and innovation e_1 give NIS == bound bit for bit
+                S3, nu3 = np.eye(dim), np.zeros(dim)
+                S3[0, 0], nu3[0] = 1.0 / bound, 1.0
+                det3 = vc.new(MD + "StandardNis", threshold=alpha, metric=None)
+                res3 = det3(nu3, S3)
+                vc.assume(det3.metric == bound)
+                vc.ensure(f"O-C17-std.decision{D}", bool(res3))
             vc.assume(abs(q - bound) > 1e-9)
         vc.ensure(f"O-C17-std.decision{D}", vc.iff(res, q >= bound))
         c = vc.real("c", 1, 100)
@@ -212,3 +220,48 @@ def flags(vc):
     f.checkManeuverDetection()
     has = FilterFlag.MANEUVER_DETECTION in f.flags
     vc.ensure("O-C17-flags", vc.And(got["args"] == ("nu", "S"), vc.iff(r, has), (f.maneuver_metric == "M") == has))
+
+
+@obligation("C17", "history_bounded", ensures=["B-C17-history.standard", "B-C17-history.sliding", "B-C17-history.fading", "B-C17-history.monotone"],
+            fns=[MD + "StandardNis.__call__", MD + "SlidingNis.__call__", MD + "FadingMemoryNis.__call__"], mode="R", native_only=True, samples=120,
+            bounded="BOUNDED stand-in, not a proof: 120 (quick) / 1200 (thorough) random histories per run of length 1..50 with measurement dimension 1..8 varying from step to step, windows 1..10, "
+                    "fading factors in (0,1); the inductive-step proofs above cover histories of any length but current dimension 1-2 only",
+            note="the three real detectors run over one random history next to a reference that recomputes each documented statistic from the WHOLE history (not incrementally): decision and metric at every "
+                 "step agree; scaling the latest innovation up never turns a detection into a non-detection")
+def history_bounded(vc):
+    from scipy.stats import chi2
+    from resonaate.estimation.maneuver_detection import StandardNis, SlidingNis, FadingMemoryNis
+    rng = np.random.default_rng(vc.int("seed", 0, 10 ** 9))
+    L = vc.int("length", 1, 50)
+    w = vc.int("window", 1, 10)
+    delta = vc.real("delta", 0.02, 0.98)
+    alpha = [0.001, 0.01, 0.05, 0.3, 0.7][vc.int("alpha_idx", 0, 4)]
+    dets = {"standard": StandardNis(alpha), "sliding": SlidingNis(alpha, window_size=w), "fading": FadingMemoryNis(alpha, delta=delta)}
+    ok = {k: True for k in dets}
+    mono = True
+    qs, ds = [], []
+    for k in range(L):
+        d = int(rng.integers(1, 9))
+        A = rng.normal(size=(d, d))
+        S = A @ A.T + 0.3 * d * np.eye(d)
+        nu = rng.normal(size=d) * float(rng.choice([0.3, 1.0, 3.0]))
+        q = float(nu @ np.linalg.solve(S, nu))
+        qs.append(q); ds.append(d)
+        ref = {"standard": (q, d)}
+        ref["sliding"] = (sum(qs[-w:]), sum(ds[-w:]))
+        faded = sum(delta ** (k - i) * qs[i] for i in range(k + 1))
+        ref["fading"] = ((1 + delta) * faded, sum(ds) / (k + 1) * (1 + delta) / (1 - delta))
+        for name, det in dets.items():
+            import copy
+            twin = copy.deepcopy(det)
+            res = bool(det(nu, S))
+            stat, dof = ref[name]
+            bound = chi2.isf(alpha, dof)
+            if abs(stat - bound) > 1e-7 * (1 + bound):
+                ok[name] &= (res == (stat >= bound))
+            ok[name] &= abs(det.metric - stat) <= 1e-7 * (1 + abs(stat))
+            res2 = bool(twin(nu * 1.7, S))
+            mono &= (not res) or res2
+    for name in dets:
+        vc.ensure(f"B-C17-history.{name}", bool(ok[name]))
+    vc.ensure("B-C17-history.monotone", bool(mono))
